@@ -9,6 +9,7 @@ def dispatchFlags (line : String) : String :=
   | "run" :: args => handleRun args
   | "init" :: args => handleInit args
   | "step" :: args => handleStep args
+  | "groups" :: args => handleGroups args
   | _ => "bad-op"
 
 partial def loopFlags (h : IO.FS.Stream) (out : IO.FS.Stream) : IO Unit := do
